@@ -80,6 +80,26 @@ def replay_concrete(h, params, values, want=None):
     return out
 
 
+def scaled_candidates(model, limit=160):
+    """variants of a solver witness with one input group (same array / same name stem) multiplied by a power of ten"""
+    groups = {}
+    for k, v in model.items():
+        if k == "__uf__" or isinstance(v, bool) or not isinstance(v, (int, float)):
+            continue
+        stem = k.split("[")[0]
+        groups.setdefault(stem, []).append(k)
+    n = 0
+    for f in (1e-3, 1e-6, 1e-9, 1e-12, 1e3, 1e6, 1e9):
+        for stem, keys in groups.items():
+            m = dict(model)
+            for k in keys:
+                m[k] = model[k] * f
+            n += 1
+            if n > limit:
+                return
+            yield m
+
+
 def write_replay(h, params, tier, obligation, occ, values, kind):
     os.makedirs(REPLAYS, exist_ok=True)
     rec = {"property": h.prop, "harness": h.id, "params": params, "obligation": obligation, "occ": occ,
@@ -204,16 +224,34 @@ def run_harness(h, params, tier, seed):
                 else:
                     # the exact-arithmetic witness did not survive floating point: look for a dyadic one
                     found = False
-                    for mdl in solve.dyadic_models(ctx, getattr(r, "q", None)):
+                    qq = getattr(r, "q", None)
+                    retry_budget = res.setdefault("_retries", 0)
+                    cands = solve.retry_models(ctx, qq) if retry_budget < 6 else []
+                    res["_retries"] = retry_budget + 1
+                    for mdl in cands:
                         rp2 = replay_concrete(h, bparams, mdl)
                         if any(n == r.name for n, _ in rp2["violated"]) or (rp2["exception"] and not rp2["rejected"]):
                             path = write_replay(h, bparams, tier, r.name, r.occ, mdl, "obligation")
                             bn["violated"] += 1
                             res["violations"].append({"key": "%s/%s" % (h.id, r.name), "replay": path,
-                                                      "what": "obligation '%s' false on the real code (dyadic witness)" % r.name,
+                                                      "what": "obligation '%s' false on the real code (dyadic / margin witness)" % r.name,
                                                       "inputs": {k: _jsonable(v) for k, v in mdl.items()}})
                             found = True
                             break
+                    if not found and res.setdefault("_scaled", 0) < 4:
+                        # the solver's witness is genuine in exact arithmetic but invisible at its magnitudes in floating point
+                        # (tolerance of the replay oracle): look for a reproducing input by re-scaling input groups of the witness
+                        res["_scaled"] += 1
+                        for mdl in scaled_candidates(r.model):
+                            rp2 = replay_concrete(h, bparams, mdl)
+                            if any(n == r.name for n, _ in rp2["violated"]):
+                                path = write_replay(h, bparams, tier, r.name, r.occ, mdl, "obligation")
+                                bn["violated"] += 1
+                                res["violations"].append({"key": "%s/%s" % (h.id, r.name), "replay": path,
+                                                          "what": "obligation '%s' false on the real code (solver witness re-scaled to a magnitude where floating point shows it)" % r.name,
+                                                          "inputs": {k: _jsonable(v) for k, v in mdl.items()}})
+                                found = True
+                                break
                     if not found:
                         bn["inconclusive"] += 1
                         res["inconclusive"] += 1
